@@ -103,6 +103,8 @@ func (e *Evidence) UnmarshalCOSE(cwt []byte) error {
 	}
 
 	if e.Claims, err = DecodeClaimsFromCBOR(e.message.Payload); err != nil {
+		// not evidence: do not keep a message that would verify
+		e.message = cose.NewSign1Message()
 		return fmt.Errorf("failed CBOR decoding of PSA claims: %w", err)
 	}
 
